@@ -16,6 +16,9 @@ from .world import World, session_hash, Panic
 HOSTILE_PREFIXES = ["++ ", "-- ", "@@ -1 +1 @@ ", "diff --git a/x b/x ", "\\ No newline at end of file ", "+++ b/", "--- a/",
                     "\t", "    ", "# ", "let x = ", "日本語 ", "\"q\" ", "'s' ", "é ", "🙂 ", "<<<<<<< ", "======= ", "index 0000..1111 "]
 PLAIN_PREFIXES = ["", "", "", "", "    ", "\t", "let x = ", "# "]
+# lines that, once git prefixes them with + or -, look like unified-diff headers, hunk headers or markers
+DIFFY_PREFIXES = ["++ ", "-- ", "++ b/", "-- a/", "+++ b/", "--- a/", "@@ -1 +1 @@ ", "@@ -3,2 +3,4 @@ ", "diff --git a/x b/x ", "\\ No newline at end of file ",
+                  "+", "-", "+ ", "- ", "++", "--", "+++ ", "--- ", "index 0000000..1111111 100644 ", "new file mode 100644 ", "Binary files a/x and b/x differ "]
 FILENAMES_PLAIN = ["a.txt", "b.txt", "src/c.rs", "docs/d.md"]
 FILENAMES_HOSTILE = ["sp ace.txt", "unié中.txt", "-dash.txt", "q'uote.txt", "dir with sp/in ner.txt", "tab\tname.txt",
                      "plus+++.txt", "a b/c d.txt", "@@.txt", "0123456789abcdef", "CON.txt", "deep/er/and/deeper/x.txt"]
@@ -127,6 +130,8 @@ class Scenario:
         self.n += 1
         hostile = self.profile["hostile_content"] if hostile is None else hostile
         pre = self.rng.choice(HOSTILE_PREFIXES + PLAIN_PREFIXES * 3) if hostile else self.rng.choice(PLAIN_PREFIXES)
+        if self.profile.get("diff_syntax") and self.rng.random() < 0.6:
+            pre = self.rng.choice(DIFFY_PREFIXES)
         line = "%sw%dk%04d_%s v%d" % (pre, self.index, self.n, author[:2].lower(), self.rng.randrange(1000))
         if self.profile.get("long_lines") and self.rng.random() < 0.03:
             line += " " + "x" * self.rng.choice([300, 5000])
